@@ -2,6 +2,8 @@
 separator-collision pairs and independent pairs."""
 from __future__ import annotations
 
+import json
+
 from ..lib.term import Con, canon
 from ..lib.universe import (Built, FieldSpec, ClassSpec, Universe, TreeGen, gen_universe, gen_value, iter_nodes, tree_depth, tree_size,
                             universe_from_json, universe_to_json)
@@ -297,6 +299,35 @@ def gen_cases(rng, tier):
         a = leaf(1, X + sep + Y, Z)
         b = leaf(2, X, Y + sep + Z)
         cases.append({"kind": "separator-collision", "input": Con("C01", u.term(), a, b), "digest_size": 8, "opts": {"universe": uj}})
+    # default-equal pairs: a property holding its declared default against the same node holding a value that is == to the
+    # default but of another type (0 / False, 1 / True, 1 / 1.0-like enum members are not modelled): the digest must not
+    # be computed relative to the default (seeded change C01-9)
+    for _ in range(12 if tier == "quick" else 200):
+        tag = f"_d{rng.randint(0, 10**9)}"
+        dv, ov = rng.choice([(Con("VInt", 0), Con("VBool", False)), (Con("VInt", 1), Con("VBool", True)),
+                             (Con("VBool", False), Con("VInt", 0)), (Con("VBool", True), Con("VInt", 1))])
+        fs = [FieldSpec("v", "Prop", ptype="any", has_default=True, default=dv), FieldSpec("w", "Prop", ptype="any", has_default=True, default=dv)]
+        u = Universe([ClassSpec("Leaf" + tag, None, fs)], "Color" + tag, rng.random() < 0.5, 600000 + rng.randint(0, 10**6))
+        other = rng.choice([dv, ov, Con("VInt", 5)])
+        a = Con("N", 1, "Leaf" + tag, Con("ONo"), [Con("P", "v", dv), Con("P", "w", other)], [])
+        b = Con("N", 2, "Leaf" + tag, Con("ONo"), [Con("P", "v", ov), Con("P", "w", other)], [])
+        cases.append({"kind": "default-equal", "input": Con("C01", u.term(), a, b), "digest_size": 8, "opts": {"universe": universe_to_json(u)}})
+    # name-boundary pairs: (class C, first property xF) against (class Cx, first property F) with the same value - the
+    # class name and the first property name must be framed against each other (seeded change C01-8)
+    for _ in range(10 if tier == "quick" else 200):
+        tag = f"_n{rng.randint(0, 10**9)}"
+        x = rng.choice(["s", "x", "_", "B"])
+        f = rng.choice(["_k", "k", "ab"])
+        if x == "_" and f.startswith("_"):
+            f = "k"          # no leading double underscore: Python mangles such names in a class body
+        pt = rng.choice(["str", "int"])
+        v = Con("VStr", rng.choice(["", "a", "1"])) if pt == "str" else Con("VInt", rng.choice([0, 1, 7]))
+        c1, c2 = "Nb" + tag, "Nb" + tag + x
+        u = Universe([ClassSpec(c1, None, [FieldSpec(x + f, "Prop", ptype=pt)]), ClassSpec(c2, None, [FieldSpec(f, "Prop", ptype=pt)])],
+                     "Color" + tag, rng.random() < 0.5, 700000 + rng.randint(0, 10**6))
+        a = Con("N", 1, c1, Con("ONo"), [Con("P", x + f, v)], [])
+        b = Con("N", 2, c2, Con("ONo"), [Con("P", f, v)], [])
+        cases.append({"kind": "name-boundary", "input": Con("C01", u.term(), a, b), "digest_size": 8, "opts": {"universe": universe_to_json(u)}})
     return cases
 
 
@@ -314,9 +345,33 @@ def impl(t, case):
         bx = x.id.split("_")[0]
         by = y.id.split("_")[0]
         r = Con("Cid", x.content_id, y.content_id, bx, by, x.is_equal(y), y.is_equal(x), x.content_id == y.content_id)
+        cid_x = x.content_id
+        del b, x, y
+        gc.collect()
+        # declaration-order probe (implementation only): the same classes declared again with every class's own fields in
+        # reverse order (all keyword-only, so that any order is legal) must give the first tree the same content_id
+        # (seeded change C01-7: a sort with ties, so that declaration order leaks)
+        uj = json.loads(json.dumps(case["opts"]["universe"]))
+        for c in uj["classes"]:
+            c["own"] = list(reversed(c["own"]))
+            for f in c["own"]:
+                f["kw_only"] = True
+        u2 = universe_from_json(uj, cache=False)
+        u2.load()
+        b2 = Built(u2, mk_origin)
+        x2 = b2.build(t.args[1])
+        if x2.content_id != cid_x:
+            r = Con("DeclarationOrderMatters", cid_x, x2.content_id)
+        del b2, x2
+        # put the original classes back where name-based lookups find them
+        import sys
+
+        from pyoak.serialize import TYPES
+        sys.modules[u.module.__name__] = u.module
+        for c in u.classes:
+            TYPES[c.name] = getattr(u.module, c.name)
     finally:
         config.ID_DIGEST_SIZE = 8
-    del b, x, y
     gc.collect()
     return r
 
